@@ -6,7 +6,8 @@ use crate::targets::*;
 use crate::util::*;
 use nuts_rs::verif_hooks::StatsDims;
 use nuts_rs::{
-    Chain, CpuMath, DiagMclmcSettings, DiagNutsSettings, LowRankMclmcSettings, LowRankNutsSettings, Settings, StepSizeAdaptMethod, Storable,
+    Chain, CpuMath, DiagMclmcSettings, DiagNutsSettings, FlowMclmcSettings, FlowNutsSettings, LowRankMclmcSettings, LowRankNutsSettings, Settings,
+    StepSizeAdaptMethod, Storable,
 };
 use rand::SeedableRng;
 use serde_json::json;
@@ -221,6 +222,58 @@ fn oracle(cfg: &SchedCfg, run: &SchedRun) -> Option<(String, String)> {
     None
 }
 
+
+// ------------------------------------------------------------------------------ flow strategy
+#[derive(Clone, Debug)]
+pub struct FlowCfg { pub mclmc: bool, pub num_tune: u64, pub num_draws: u64, pub step_size_window: f64, pub freq: u64, pub dim: usize, pub seed: u64 }
+impl FlowCfg {
+    pub fn to_json(&self) -> serde_json::Value { json!({"mclmc": self.mclmc, "num_tune": self.num_tune, "num_draws": self.num_draws, "step_size_window": self.step_size_window, "freq": self.freq, "dim": self.dim, "seed": self.seed.to_string()}) }
+    pub fn from_json(v: &serde_json::Value) -> FlowCfg { FlowCfg { mclmc: v["mclmc"].as_bool().unwrap(), num_tune: v["num_tune"].as_u64().unwrap(), num_draws: v["num_draws"].as_u64().unwrap(), step_size_window: v["step_size_window"].as_f64().unwrap(), freq: v["freq"].as_u64().unwrap(), dim: v["dim"].as_u64().unwrap() as usize, seed: v["seed"].as_str().unwrap().parse().unwrap() } }
+}
+
+/// per draw: (Progress.tuning, `tuning` statistic, transformation_index of the returned point, step size, step_size_bar)
+pub fn run_flow(cfg: &FlowCfg) -> Result<Vec<(bool, bool, i64, f64, f64)>, String> {
+    macro_rules! go { ($s:expr) => {{
+        let mut s = $s;
+        s.num_tune = cfg.num_tune; s.num_draws = cfg.num_draws; s.seed = cfg.seed;
+        s.adapt_options.step_size_window = cfg.step_size_window; s.adapt_options.transform_update_freq = cfg.freq;
+        let math = CpuMath::new(Target::new(Kind::Diag { mu: (0..cfg.dim).map(|i| i as f64).collect(), sigma: (0..cfg.dim).map(|i| 0.5 + i as f64).collect() }, cfg.dim));
+        let mut rng = rand::rngs::ChaCha8Rng::seed_from_u64(cfg.seed);
+        let res = std::panic::catch_unwind(std::panic::AssertUnwindSafe(|| -> Result<Vec<(bool, bool, i64, f64, f64)>, String> {
+            let mut chain = s.new_chain(0, math, &mut rng);
+            chain.set_position(&vec![0.3; cfg.dim]).map_err(|e| format!("set_position: {e}"))?;
+            let mut out = vec![];
+            for _ in 0..(cfg.num_tune + cfg.num_draws) {
+                let (_p, _e, mut stats, progress) = chain.expanded_draw().map_err(|e| format!("draw: {e}"))?;
+                let dims = { let m = chain.math(); StatsDims::from(&*m) };
+                let row = StatRow(stats.get_all(&dims).into_iter().map(|(n, v)| (n.to_string(), v)).collect());
+                out.push((progress.tuning, row.b("tuning").unwrap_or(progress.tuning), row.i("transformation_index").unwrap_or(-1), row.f("step_size").unwrap_or(progress.step_size), row.f("step_size_bar").unwrap_or(f64::NAN)));
+            }
+            Ok(out)
+        }));
+        match res { Ok(r) => r, Err(p) => Err(format!("panic: {}", p.downcast_ref::<String>().cloned().or_else(|| p.downcast_ref::<&str>().map(|s| s.to_string())).unwrap_or_default())) }
+    }}; }
+    if cfg.mclmc { let mut s = FlowMclmcSettings::default(); s.adapt_options.step_size_settings.adapt_options.method = StepSizeAdaptMethod::Fixed(0.5); go!(s) } else { let mut s = FlowNutsSettings::default(); s.maxdepth = 5; go!(s) }
+}
+
+fn flow_oracle(cfg: &FlowCfg, recs: &[(bool, bool, i64, f64, f64)]) -> Option<(String, String)> {
+    let n_tuning = recs.iter().filter(|r| r.0).count() as u64;
+    if n_tuning != cfg.num_tune { return Some(("flow.tuning_count".into(), format!("{n_tuning} draws reported as tuning, num_tune = {}", cfg.num_tune))); }
+    for (d, r) in recs.iter().enumerate() {
+        let want = (d as u64) < cfg.num_tune;
+        if r.0 != want || r.1 != want { return Some(("flow.tuning_flag".into(), format!("draw {d}: tuning flag progress={} stat={} expected {want}", r.0, r.1))); }
+    }
+    // the transformation never changes from the start of the final step-size window onward: the point of draw d+1 is
+    // computed under the transformation left by adapt(d)
+    let final_window = ((cfg.num_tune as f64) * (1.0 - cfg.step_size_window)).floor() as u64;
+    for d in 0..recs.len().saturating_sub(1) {
+        if recs[d + 1].2 != recs[d].2 && d as u64 >= final_window {
+            return Some(("flow.frozen".into(), format!("transformation changed (index {} -> {}) by the adaptation after draw {d} >= final step-size window start {final_window}", recs[d].2, recs[d + 1].2)));
+        }
+    }
+    None
+}
+
 pub fn main(tier: &str, seed: u64, outdir: &str) {
     let mut cases = Cases::new();
     let mut rep = Report::new("C06");
@@ -259,11 +312,36 @@ pub fn main(tier: &str, seed: u64, outdir: &str) {
         cases.line(&lb.0);
         if case < 2 { rep.sample(json!({"cfg": cfg.to_json(), "init_counters": c, "first_draws": run.draws.iter().take(3).map(|d| json!({"div": d.diverging, "idx": d.idx, "counters": d.counters, "tuning": d.progress_tuning})).collect::<Vec<_>>() })); }
     }
+    // flow strategy (ExternalTransformAdaptation): NUTS and MCLMC chains
+    let nf = if tier == "thorough" { 160 } else { 40 };
+    for case in 0..nf {
+        let mut r = Sm::new(seed, "C06-flow", case);
+        let num_tune = if case < 12 { case } else if case % 7 == 0 { 150 + r.below(250) } else { r.below(130) };
+        let cfg = FlowCfg { mclmc: case % 2 == 1, num_tune, num_draws: 4 + r.below(12), step_size_window: if r.below(5) == 0 { 0.0 } else { r.range(0.0, 0.6) },
+            freq: *r.pick(&[1u64, 3, 7, 16, 50, 128]), dim: (if case % 2 == 1 { 2 } else { 1 }) + r.below(3) as usize, seed: r.next() };
+        rep.evaluations += 1;
+        rep.hit(if cfg.mclmc { "flow.mclmc" } else { "flow.nuts" });
+        let replay = json!({"kind": "flow", "cfg": cfg.to_json()});
+        match run_flow(&cfg) {
+            Err(e) => { if e.contains("recoverable: true") { rep.hit("skipped.recoverable_error_at_stepsize_reinit(C05)"); } else { rep.violation("flow.error", &format!("chain failed: {e}"), replay); } }
+            Ok(recs) => {
+                if let Some((key, what)) = flow_oracle(&cfg, &recs) { rep.violation(&key, &what, replay); }
+                if recs.windows(2).any(|w| w[0].2 != w[1].2) { rep.nontrivial += 1; }
+                let mut lb = LineB::new("flow").u(case).u(cfg.num_tune).f(cfg.step_size_window).u(cfg.freq).u(recs.len() as u64);
+                for r in &recs { lb = lb.u(r.0 as u64).i(r.2); }
+                cases.line(&lb.0);
+            }
+        }
+    }
     cases.write(&format!("{outdir}/C06.cases")).unwrap();
     rep.write(&format!("{outdir}/C06.report.json"));
 }
 
 pub fn replay(v: &serde_json::Value) -> bool {
+    if v["kind"] == "flow" {
+        let cfg = FlowCfg::from_json(&v["cfg"]);
+        return match run_flow(&cfg) { Err(e) => { println!("replay: {e}"); true } Ok(recs) => { let r = flow_oracle(&cfg, &recs); println!("replay: {:?}", r); r.is_some() } };
+    }
     let cfg = SchedCfg::from_json(&v["cfg"]);
     let run = run(&cfg);
     let r = oracle(&cfg, &run);
